@@ -5,7 +5,7 @@
    correspondence part of the check tests on rockit (NLP, start point, parameter values, solver
    settings and accessors of the loaded OCP against the original and against the Rocq model). *)
 From Coq Require Import List Bool.
-From RV Require Import Mech.History Mech.Persist Proofs.HistProofs Proofs.PersistProofs.
+From RV Require Import Mech.History Mech.Persist Proofs.HistProofs Proofs.PersistProofs Proofs.VacuityB.
 Import ListNotations.
 
 Theorem C18_loaded_behaves_like_fresh_partial :
@@ -23,6 +23,30 @@ Theorem C18_loaded_behaves_like_fresh_partial :
                             (final_spec Spec Edit Upd apply_edit apply_upd sp ops) ops')).
 Proof. intros. apply loaded_behaves_fresh; assumption. Qed.
 Print Assumptions C18_loaded_behaves_like_fresh_partial.
+
+(* the same with the oracle hypotheses where they are used (vacuity audit): the codec has to round-trip the ONE declaration
+   that is saved (a real codec fails on unpicklable declarations), and live updates have to commute with transcription along
+   the history that follows the load *)
+Theorem C18_loaded_behaves_like_fresh_along :
+  forall (Spec Edit Upd NLP Bytes : Type)
+         (apply_edit : Spec -> Edit -> Spec) (apply_upd : Spec -> Upd -> Spec)
+         (transcribe : Spec -> NLP) (live_upd : NLP -> Upd -> NLP)
+         (ser : Spec -> Bytes) (deser : Bytes -> option Spec)
+         (sp : Spec) (ops ops' : list (hop Edit Upd)),
+    let run := hrun Spec Edit Upd NLP apply_edit apply_upd transcribe live_upd in
+    let saved := final_spec Spec Edit Upd apply_edit apply_upd sp ops in
+    deser (ser saved) = Some saved ->
+    (forall pre u post, ops' = pre ++ HUpd Edit Upd u :: post ->
+       live_upd (transcribe (final_spec Spec Edit Upd apply_edit apply_upd saved pre)) u
+       = transcribe (apply_upd (final_spec Spec Edit Upd apply_edit apply_upd saved pre) u)) ->
+    exists l, load Spec NLP Bytes deser (snd (save Spec NLP Bytes ser (run (hinit Spec NLP sp) ops))) = Some l /\
+      next_nlp Spec Edit Upd NLP apply_edit apply_upd transcribe live_upd (run l ops')
+      = Some (transcribe (final_spec Spec Edit Upd apply_edit apply_upd saved ops')).
+Proof.
+  intros Spec Edit Upd NLP Bytes ae au tr lu ser deser sp ops ops' run saved H1 H2.
+  exact (loaded_behaves_fresh_local Spec Edit Upd NLP ae au tr lu Bytes ser deser sp ops ops' H1 H2).
+Qed.
+Print Assumptions C18_loaded_behaves_like_fresh_along.
 
 Theorem C18_original_survives_save :
   forall (Spec Edit Upd NLP Bytes : Type)
